@@ -105,9 +105,11 @@ func (t *Directive) Validate(root *Root) (errs []error) {
 			if a.Default != nil {
 				if v, err := co.CoerceIn(a.Default); err != nil {
 					errs = append(errs, fmt.Errorf("%w at %d:%d", err, a.line, a.col))
-				} else if v != a.Default {
-					// Might as well replace the coerced value since it is really
-					// what is needed.
+				} else {
+					// Might as well replace the coerced value since it is
+					// really what is needed. Do not compare the values
+					// first, list and object values are not comparable and
+					// would panic.
 					a.Default = v
 				}
 			}
